@@ -110,6 +110,20 @@ Proof.
       (eapply IH in H; [|exact LS]; lia).
 Qed.
 
+(* a completed response leaves the builder in its initial state *)
+Lemma bparse_complete_initial : forall k buf st st' rest resp,
+  (length buf <= k)%nat -> bparse_all st buf = (st', rest, Complete resp) -> st' = Initial.
+Proof.
+  induction k as [|k IH]; intros buf st st' rest resp Hk B.
+  - destruct buf; [|simpl in Hk; lia]. rewrite bparse_all_unfold in B. discriminate.
+  - rewrite bparse_all_unfold in B. destruct buf as [|c buf']; [discriminate|]. set (buf := c :: buf') in *.
+    rewrite bstep_nonempty in B by discriminate. unfold bstep_ne in B.
+    destruct (parse_component buf) as [n comp| | |] eqn:E; try discriminate.
+    destruct (parse_ok_stable buf n comp E) as [[L1 L2] _].
+    assert (LS : (length (skipn n buf) <= k)%nat) by (rewrite skipn_length; lia).
+    destruct comp; try (inversion B; subst; reflexivity); (eapply IH; [exact LS | exact B]).
+Qed.
+
 (* a completed response consumed at least one byte *)
 Lemma bparse_complete_lt st buf st' rest resp :
   bparse_all st buf = (st', rest, Complete resp) -> (length rest < length buf)%nat.
@@ -196,7 +210,7 @@ Theorem recv_loop_ref : forall fuel p st buf r,
     o = fst (ref_from st (stream buf r) (rtail r)) /\
     (forall resp, o = Resp resp ->
        stream (c_buf c') r' = snd (ref_from st (stream buf r) (rtail r)) /\
-       wf_reader r' /\ rtail r' = rtail r /\ pol_ok (c_policy c') (length (c_buf c')) /\
+       wf_reader r' /\ rtail r' = rtail r /\ pol_ok (c_policy c') (length (c_buf c')) /\ c_state c' = Initial /\
        (length (stream (c_buf c') r') < length (stream buf r))%nat)
   end.
 Proof.
@@ -209,6 +223,7 @@ Proof.
   destruct v as [resp| |].
   - rewrite A. simpl. split; [reflexivity|]. intros resp' _. repeat split; auto.
     + eapply pol_ok_le; eauto.
+    + eapply bparse_complete_initial; [apply le_n | exact B].
     + (* progress: a complete response consumed at least one byte *)
       rewrite !app_length. pose proof (bparse_complete_lt _ _ _ _ _ B). lia.
   - (* NeedMore *)
@@ -231,7 +246,7 @@ Proof.
         unfold ref_from, stream in IH. rewrite T in IH.
         rewrite <- app_assoc, <- Cc in IH. rewrite <- A in IH.
         destruct IH as [I1 I2]. split; [exact I1|].
-        intros resp H. destruct (I2 resp H) as (J1 & J2 & J3 & J4 & J5). repeat split; auto.
+        intros resp H. destruct (I2 resp H) as (J1 & J2 & J3 & J4 & J5 & J6). repeat split; auto.
         rewrite !app_length in *. rewrite Cc, !app_length in *. lia.
   - destruct A as (st'' & rest' & A). rewrite A. simpl. split; [reflexivity | intros; discriminate].
 Qed.
@@ -247,23 +262,23 @@ Proof.
 Qed.
 
 Theorem run_ref : forall fuel c r,
-  wf_reader r -> pol_ok (c_policy c) (length (c_buf c)) ->
+  wf_reader r -> pol_ok (c_policy c) (length (c_buf c)) -> c_state c = Initial ->
   run fuel 0 c r = ref_run fuel (stream (c_buf c) r) (rtail r).
 Proof.
-  induction fuel as [|fuel IH]; intros c r W P; [reflexivity|].
-  cbn [run ref_run]. unfold receive.
+  induction fuel as [|fuel IH]; intros c r W P S0; [reflexivity|].
+  cbn [run ref_run]. unfold receive. rewrite S0.
   pose proof (recv_loop_ref (S (reader_bytes r)) (c_policy c) Initial (c_buf c) r W P (Nat.lt_succ_diag_r _)) as H.
   destruct (recv_loop (S (reader_bytes r)) (c_policy c) Initial (c_buf c) r) as [[o c'] r'].
   rewrite ref_receive_from. destruct H as [H1 H2].
   destruct (ref_from Initial (stream (c_buf c) r) (rtail r)) as [o2 rest2]. simpl in *. subst o2.
   destruct o as [resp| | | | | |]; try reflexivity.
-  destruct (H2 resp eq_refl) as (J1 & J2 & J3 & J4 & _). rewrite <- J1, <- J3. f_equal. apply IH; assumption.
+  destruct (H2 resp eq_refl) as (J1 & J2 & J3 & J4 & J5 & _). rewrite <- J1, <- J3. f_equal. apply IH; assumption.
 Qed.
 
 Theorem run_no_panic : forall fuel c r o,
-  wf_reader r -> pol_ok (c_policy c) (length (c_buf c)) -> In o (run fuel 0 c r) -> good_outcome o.
+  wf_reader r -> pol_ok (c_policy c) (length (c_buf c)) -> c_state c = Initial -> In o (run fuel 0 c r) -> good_outcome o.
 Proof.
-  intros fuel c r o W P. rewrite run_ref by assumption.
+  intros fuel c r o W P S0. rewrite run_ref by assumption.
   generalize (stream (c_buf c) r). induction fuel as [|fuel IH]; intros all H; [destruct H|].
   cbn [ref_run] in H. rewrite ref_receive_from in H.
   pose proof (ref_from_good Initial all (rtail r)) as G.
@@ -305,7 +320,8 @@ Definition ref_connect (all : bytes) (t : tail_kind) : ref_conn :=
 Definition conn_matches (o : connect_outcome) (r' : reader) (x : ref_conn) (t : tail_kind) : Prop :=
   match o, x with
   | Connected v c, RConnected v' rest =>
-      v = v' /\ stream (c_buf c) r' = rest /\ wf_reader r' /\ rtail r' = t /\ pol_ok (c_policy c) (length (c_buf c))
+      v = v' /\ stream (c_buf c) r' = rest /\ wf_reader r' /\ rtail r' = t /\ pol_ok (c_policy c) (length (c_buf c)) /\
+      c_state c = Initial
   | ConnInvalid, RConnInvalid => True
   | ConnEof, RConnEof => True
   | ConnIo k, RConnIo k' => k = k'
@@ -395,7 +411,7 @@ Lemma receive_outcome_good c r :
   match receive c r with (o, _, _) => good_outcome o end.
 Proof.
   intros W P. unfold receive.
-  pose proof (recv_loop_ref (S (reader_bytes r)) (c_policy c) Initial (c_buf c) r W P (Nat.lt_succ_diag_r _)) as H.
+  pose proof (recv_loop_ref (S (reader_bytes r)) (c_policy c) (c_state c) (c_buf c) r W P (Nat.lt_succ_diag_r _)) as H.
   destruct (recv_loop _ _ _ _ _) as [[o c'] r']. destruct H as [-> _]. apply ref_from_good.
 Qed.
 
@@ -405,7 +421,7 @@ Proof.
   induction fuel as [|fuel IH]; intros extra c r o W P H; [destruct H|].
   cbn [run] in H. pose proof (receive_outcome_good c r W P) as G.
   unfold receive in *.
-  pose proof (recv_loop_inv (S (reader_bytes r)) (c_policy c) Initial (c_buf c) r W P) as I.
+  pose proof (recv_loop_inv (S (reader_bytes r)) (c_policy c) (c_state c) (c_buf c) r W P) as I.
   destruct (recv_loop _ _ _ _ _) as [[o1 c'] r']. destruct I as (I1 & I2 & I3 & _).
   destruct o1; (destruct H as [H|H]; [subst; exact G|]);
     try (destruct extra as [|e]; [destruct H | eapply IH; eauto]).
